@@ -7,6 +7,7 @@ CONSTANTS
   MaxOps = 4
   ExportOps = 2
   RequestStateKeptAcrossLines = FALSE
+  ConnectionRemembersToken = FALSE
   VerifierRemembersTokens = FALSE
   RedactNeedsTLSRecord = FALSE
   KeyFamily = "all"
